@@ -26,7 +26,7 @@ type staticSource struct{ infos []*model.ProviderInfo }
 
 func (s *staticSource) Fetch(_ context.Context, pid peer.ID) (*model.ProviderInfo, error) {
 	for _, in := range s.infos {
-		if in.AddrInfo.ID == pid {
+		if in != nil && in.AddrInfo.ID == pid {
 			return in, nil
 		}
 	}
@@ -207,10 +207,20 @@ func runC17(c *vf.Ctx) {
 		}
 		c.Cur(sub, i, strings.Join(shape, " "))
 
-		var src pcache.ProviderSource = &staticSource{infos: []*model.ProviderInfo{info}}
+		// a source may also deliver a list with an empty slot (JSON null) next to the record
+		list := []*model.ProviderInfo{info}
+		if r.Intn(25) == 0 {
+			if r.Intn(2) == 0 {
+				list = []*model.ProviderInfo{nil, info}
+			} else {
+				list = []*model.ProviderInfo{info, nil}
+			}
+			c.Inc("source_lists_with_a_null_entry")
+		}
+		var src pcache.ProviderSource = &staticSource{infos: list}
 		specInfo := info
 		if viaJSON {
-			body, _ := json.Marshal([]*model.ProviderInfo{info})
+			body, _ := json.Marshal(list)
 			one, _ := json.Marshal(info)
 			curAll.Store(&body)
 			curOne.Store(&one)
@@ -226,7 +236,11 @@ func runC17(c *vf.Ctx) {
 				c.Fail(sub, i, "harness-json", err.Error(), nil)
 				continue
 			}
-			specInfo = rt[0]
+			for _, x := range rt {
+				if x != nil {
+					specInfo = x
+				}
+			}
 			c.Inc("via_http_json")
 		}
 		c.Guard(sub, i, wit, func() {
